@@ -1,8 +1,13 @@
 package main
 
 import (
+	"fmt"
 	"go/ast"
 	"go/token"
+	"os"
+	"path/filepath"
+	"sort"
+	"strings"
 )
 
 // C05 — concurrency caps: the synchronisation skeletons of every acquire/release site
@@ -152,9 +157,213 @@ func (e *emitter) c05IfCalls(s *source, rel, goName, leanName string, calls map[
 	e.stringList(leanName, "guarded calls of `"+goName+"` in "+rel, out)
 }
 
+// ---- round 4: semantic ties (conditions / stores translated to Lean) and construction facts ----
+
+// c05Subst replaces calls without arguments (`timex.Now()`, `l.TryBorrow()`) by an identifier
+// `call_<name>`: the value the call yields is an input of the translated condition.
+func c05Subst(s *source, e ast.Expr) ast.Expr {
+	switch x := e.(type) {
+	case *ast.ParenExpr:
+		return &ast.ParenExpr{X: c05Subst(s, x.X)}
+	case *ast.UnaryExpr:
+		return &ast.UnaryExpr{Op: x.Op, X: c05Subst(s, x.X)}
+	case *ast.BinaryExpr:
+		return &ast.BinaryExpr{X: c05Subst(s, x.X), Op: x.Op, Y: c05Subst(s, x.Y)}
+	case *ast.CallExpr:
+		if len(x.Args) == 0 {
+			return &ast.Ident{Name: "call_" + strings.ReplaceAll(s.src(x.Fun), ".", "_")}
+		}
+	}
+	return e
+}
+
+// c05Conds collects, in syntactic order (nested function literals included), the conditions of the if
+// statements and for loops of a function.
+func c05Conds(fd *ast.FuncDecl) []ast.Expr {
+	var out []ast.Expr
+	ast.Inspect(fd.Body, func(n ast.Node) bool {
+		switch x := n.(type) {
+		case *ast.IfStmt:
+			out = append(out, x.Cond)
+		case *ast.ForStmt:
+			if x.Cond != nil {
+				out = append(out, x.Cond)
+			}
+		}
+		return true
+	})
+	return out
+}
+
+// c05Cond translates the nth condition of goName into `def leanName (free variables… : Int/Bool) : Bool`
+// (translate.go's expression subset; constants of `consts` are substituted by their values). The Lean
+// definition carries the operator, the constant and the operands: Tie proves it equal to the model's test.
+func (e *emitter) c05Cond(t *translator, s *source, rel, goName, leanName string, nth int) {
+	fd := s.findFunc(rel, goName)
+	if fd == nil {
+		e.errors = append(e.errors, "function "+goName+" not found in "+rel)
+		e.printf("/-- MISSING: %s in %s -/\ndef %s : Unit := ()\n\n", goName, rel, leanName)
+		return
+	}
+	conds := c05Conds(fd)
+	if nth >= len(conds) {
+		e.errors = append(e.errors, fmt.Sprintf("%s has only %d conditions, wanted #%d", goName, len(conds), nth))
+		e.printf("/-- MISSING: condition #%d of %s -/\ndef %s : Unit := ()\n\n", nth, goName, leanName)
+		return
+	}
+	c := &tctx{t: t, locals: map[string]bool{}, freeSet: map[string]bool{}, boolVars: map[string]bool{}}
+	if fd.Recv != nil && len(fd.Recv.List) == 1 && len(fd.Recv.List[0].Names) == 1 {
+		c.recv = fd.Recv.List[0].Names[0].Name
+	}
+	var body string
+	func() {
+		defer func() {
+			if p := recover(); p != nil {
+				if te, ok := p.(transErr); ok {
+					e.errors = append(e.errors, goName+": "+te.msg)
+					body = ""
+					return
+				}
+				panic(p)
+			}
+		}()
+		body = c.expr(c05Subst(s, conds[nth]), true)
+	}()
+	if body == "" {
+		e.printf("/-- TRANSLATION FAILED: condition #%d of %s -/\ndef %s : Unit := ()\n\n", nth, goName, leanName)
+		return
+	}
+	var params []string
+	for _, f := range c.free {
+		ty := "Int"
+		if c.boolVars[f] {
+			ty = "Bool"
+		}
+		params = append(params, "("+f+" : "+ty+")")
+	}
+	e.printf("/-- condition #%d of `%s` in %s: `%s` -/\ndef %s %s : Bool :=\n  %s\n\n", nth, goName, rel, s.src(conds[nth]), leanName,
+		strings.Join(params, " "), body)
+}
+
+// c05ClosureEff translates the body of the function literal RETURNED by an option constructor
+// (`func WithWorkers(workers int) Option { return func(opts *rxOptions) { … } }`) as an effect function of the
+// constructor's integer parameters: which value is stored into which field on which branch.
+func (e *emitter) c05ClosureEff(t *translator, s *source, rel, goName, leanName string) {
+	fd := s.findFunc(rel, goName)
+	var lit *ast.FuncLit
+	if fd != nil && len(fd.Body.List) == 1 {
+		if rs, ok := fd.Body.List[0].(*ast.ReturnStmt); ok && len(rs.Results) == 1 {
+			lit, _ = rs.Results[0].(*ast.FuncLit)
+		}
+	}
+	if lit == nil {
+		e.errors = append(e.errors, goName+" in "+rel+" is not `return func(...) {...}`")
+		e.printf("/-- MISSING: returned closure of %s in %s -/\ndef %s : Unit := ()\n\n", goName, rel, leanName)
+		return
+	}
+	synth := &ast.FuncDecl{Name: fd.Name, Type: fd.Type, Body: lit.Body}
+	def, err := t.translateFunc(synth, goName+".closure", leanName, true, 0, nil)
+	if err != nil {
+		e.errors = append(e.errors, err.Error())
+	}
+	e.printf("/-- translated from the closure returned by `%s` in %s -/\n%s\n", goName, rel, def)
+}
+
+// c05PkgVars lists the package-level `var` declarations of all non-test Go files of a package directory
+// (`file: name [type] = init`, error values left out), sorted: state that outlives a call lives there.
+func (e *emitter) c05PkgVars(s *source, dir, leanName string) {
+	ents, err := os.ReadDir(filepath.Join(*repo, dir))
+	if err != nil {
+		e.errors = append(e.errors, "cannot list "+dir)
+		e.stringList(leanName, "MISSING: "+dir, []string{"MISSING"})
+		return
+	}
+	var out []string
+	for _, en := range ents {
+		if en.IsDir() || !strings.HasSuffix(en.Name(), ".go") || strings.HasSuffix(en.Name(), "_test.go") {
+			continue
+		}
+		f := s.file(filepath.Join(dir, en.Name()))
+		if f == nil {
+			e.errors = append(e.errors, "cannot parse "+en.Name())
+			continue
+		}
+		for _, d := range f.Decls {
+			gd, ok := d.(*ast.GenDecl)
+			if !ok || gd.Tok != token.VAR {
+				continue
+			}
+			for _, sp := range gd.Specs {
+				vs := sp.(*ast.ValueSpec)
+				for i, n := range vs.Names {
+					tok := en.Name() + ": " + n.Name
+					if vs.Type != nil {
+						tok += " " + s.src(vs.Type)
+					}
+					if i < len(vs.Values) {
+						init := s.src(vs.Values[i])
+						if strings.HasPrefix(strings.ToLower(n.Name), "err") && (strings.HasPrefix(init, "errors.New(") || strings.HasPrefix(init, "context.")) {
+							continue // an immutable error value is not state
+						}
+						tok += " = " + init
+					}
+					out = append(out, tok)
+				}
+			}
+		}
+	}
+	sort.Strings(out)
+	e.stringList(leanName, "package-level variables of "+dir+" (non-test files)", out)
+}
+
+// c05Stmts lists the top-level statements of a function as normalised source text (small constructors and
+// glue functions whose every statement matters: buildOptions, newOptions, NewWorkerGroup, …).
+func (e *emitter) c05Stmts(s *source, rel, goName, leanName string) {
+	fd := s.findFunc(rel, goName)
+	if fd == nil {
+		e.errors = append(e.errors, "function "+goName+" not found in "+rel)
+		e.stringList(leanName, "MISSING: "+goName+" in "+rel, []string{"MISSING"})
+		return
+	}
+	var out []string
+	for _, st := range fd.Body.List {
+		out = append(out, s.src(st))
+	}
+	e.stringList(leanName, "statements of `"+goName+"` in "+rel, out)
+}
+
+// c05ForHeader: `init; cond; post` of the first for statement of a function.
+func (e *emitter) c05ForHeader(s *source, rel, goName, leanName string) {
+	fd := s.findFunc(rel, goName)
+	var out []string
+	if fd != nil {
+		ast.Inspect(fd.Body, func(n ast.Node) bool {
+			if f, ok := n.(*ast.ForStmt); ok && out == nil {
+				out = []string{"", "", ""}
+				if f.Init != nil {
+					out[0] = s.src(f.Init)
+				}
+				if f.Cond != nil {
+					out[1] = s.src(f.Cond)
+				}
+				if f.Post != nil {
+					out[2] = s.src(f.Post)
+				}
+			}
+			return true
+		})
+	}
+	if out == nil {
+		e.errors = append(e.errors, "no for statement in "+goName)
+		out = []string{"MISSING"}
+	}
+	e.stringList(leanName, "init / cond / post of the for loop of `"+goName+"` in "+rel, out)
+}
+
 func init() {
 	register("C05", func(s *source, e *emitter) {
 		none := map[string]bool{}
+		c05Round4(s, e)
 		e.shapeDef(s, "core/syncx/limit.go", "Limit.Borrow", "borrowShape")
 		e.shapeDef(s, "core/syncx/limit.go", "Limit.Return", "returnShape")
 		e.shapeDef(s, "core/syncx/limit.go", "Limit.TryBorrow", "tryBorrowShape")
@@ -211,4 +420,49 @@ func init() {
 		e.constDef(s, "core/mr/mapreduce.go", "minWorkers", "mrMinWorkers")
 		e.constDef(s, "core/fx/stream.go", "minWorkers", "fxMinWorkers")
 	})
+}
+
+func c05Round4(s *source, e *emitter) {
+	const fx, mrf = "core/fx/stream.go", "core/mr/mapreduce.go"
+	tfx := &translator{registry: map[string]*transFunc{}, consts: map[string]string{"minWorkers": "1"}}
+	// worker-count options: the stored value per branch, as a function of the argument
+	e.c05ClosureEff(tfx, s, fx, "WithWorkers", "fxWithWorkersEff")
+	e.c05ClosureEff(tfx, s, mrf, "WithWorkers", "mrWithWorkersEff")
+	e.c05Stmts(s, fx, "UnlimitedWorkers", "fxUnlimitedStmts")
+	// the construction: a fresh struct per call, options applied through the pointer, nothing package-level
+	e.c05Stmts(s, fx, "buildOptions", "fxBuildOptionsStmts")
+	e.c05Stmts(s, fx, "newOptions", "fxNewOptionsStmts")
+	e.c05Stmts(s, mrf, "buildOptions", "mrBuildOptionsStmts")
+	e.c05Stmts(s, mrf, "newOptions", "mrNewOptionsStmts")
+	e.c05PkgVars(s, "core/fx", "fxPkgVars")
+	e.c05PkgVars(s, "core/mr", "mrPkgVars")
+	e.c05PkgVars(s, "core/threading", "threadingPkgVars")
+	// who calls buildOptions and what reaches the limiter
+	e.c05Stmts(s, fx, "Stream.Walk", "fxWalkStmts")
+	e.c05Stmts(s, fx, "Stream.Map", "fxMapStmts")
+	e.c05Stmts(s, fx, "Stream.Filter", "fxFilterStmts")
+	e.c05Stmts(s, fx, "Stream.Parallel", "fxParallelStmts")
+	e.c05Details(s, mrf, "ForEach", "mrForEachCalls", map[string]bool{"buildOptions": true})
+	e.c05Details(s, mrf, "mapReduceWithPanicChan", "mrMapReduceCalls", map[string]bool{"buildOptions": true})
+	// constructors of the other limiters: fresh state per instance
+	e.c05Stmts(s, "core/syncx/limit.go", "NewLimit", "newLimitStmts")
+	e.c05Stmts(s, "core/syncx/timeoutlimit.go", "NewTimeoutLimit", "newTimeoutLimitStmts")
+	e.c05Stmts(s, "core/syncx/cond.go", "NewCond", "newCondStmts")
+	e.c05Stmts(s, "core/threading/taskrunner.go", "NewTaskRunner", "newTaskRunnerStmts")
+	e.c05Stmts(s, "core/threading/workergroup.go", "NewWorkerGroup", "newWorkerGroupStmts")
+	e.c05Stmts(s, "core/threading/routinegroup.go", "NewRoutineGroup", "newRoutineGroupStmts")
+	e.c05PkgVars(s, "core/syncx", "syncxPkgVars")
+	// decision-making conditions on the property's path, translated
+	t := &translator{registry: map[string]*transFunc{}, consts: map[string]string{}}
+	e.c05Cond(t, s, "rest/handler/maxconnshandler.go", "MaxConnsHandler", "maxConnsPassCond", 0)
+	e.c05Cond(t, s, "core/syncx/pool.go", "NewPool", "newPoolPanicCond", 0)
+	e.c05Cond(t, s, "core/syncx/pool.go", "Pool.Get", "poolExpiredCond", 1)
+	e.c05Cond(t, s, "core/syncx/pool.go", "Pool.Get", "poolCreateCond", 2)
+	e.c05Cond(t, s, "core/syncx/timeoutlimit.go", "TimeoutLimit.Borrow", "tlRetryCond", 1)
+	e.c05Cond(t, s, "core/syncx/timeoutlimit.go", "TimeoutLimit.Borrow", "tlTimeoutCond", 2)
+	e.c05Cond(t, s, "core/threading/workergroup.go", "WorkerGroup.Start", "workerGroupLoopCond", 0)
+	e.c05ForHeader(s, "core/threading/workergroup.go", "WorkerGroup.Start", "workerGroupFor")
+	e.c05Stores(s, "core/syncx/pool.go", "WithMaxAge", "poolMaxAgeStores")
+	e.c05Details(s, mrf, "Finish", "mrFinishCalls", map[string]bool{"WithWorkers": true})
+	e.c05Details(s, mrf, "FinishVoid", "mrFinishVoidCalls", map[string]bool{"WithWorkers": true})
 }
